@@ -1354,6 +1354,8 @@ class C03(SessionProp):
 
     def shrink(self, case, rule):
         cfg, setup, stream, cutspec = case
+        if len(stream) > 300 or cfg.get("big"):
+            return case          # the hand-built flood / 2 MB blocks: every evaluation costs seconds
 
         def fails_stream(st_):
             return any(v.rule == rule for v in self.check_case((cfg, setup, st_, cutspec)).viols)
